@@ -329,6 +329,10 @@ func registerTime(e *Engine) {
 		ex.timers = append(ex.timers, ch)
 		return nil
 	}
+	x["zzsym.FreezeTimers"] = func(ex *Exec, c *frame, f *ssa.Function, a []Value) Value {
+		ex.side["freezeTimers"] = true
+		return nil
+	}
 	x["zzsym.FreezeClock"] = func(ex *Exec, c *frame, f *ssa.Function, a []Value) Value {
 		ex.side["freezeClock"] = true
 		return nil
